@@ -351,6 +351,9 @@ def run_check(mod, tier, seed):
     # VERIF_SEED only rotates dispatch order; results are merged in shard order.
     rot = seed % len(jobs)
     order = jobs[rot:] + jobs[:rot]
+    if getattr(mod, 'USES_MTM', False):
+        from . import build
+        build.rebuild_mtspeclib()      # before the fork: workers inherit the rebuilt library
     if hasattr(mod, 'parent_init'):
         mod.parent_init(tier)
     nproc = min(NPROC, len(jobs))
@@ -485,6 +488,9 @@ def run_replay(mod, path):
     assert_repo()
     with open(path) as f:
         rec = json.load(f)
+    if getattr(mod, 'USES_MTM', False):
+        from . import build
+        build.rebuild_mtspeclib()
     if hasattr(mod, 'worker_init'):
         mod.worker_init('quick')
     pt = unjson(rec['point'])
